@@ -31,4 +31,6 @@ func c02(c *Ctx) {
 	r.Floor("decoded fields checked by RESET.R1", n, 14)
 	c.wrapScope = map[string]bool{"rtp.(*Header).Unmarshal": true, "rtp.(*Packet).Unmarshal": true}
 	boundsFor(c, "C02", []*ssa.Function{hu, pu, ge, gi})
+	// reuse = fresh also means: nothing decoded depends on how large the receiver's buffers have grown
+	r.Floor("cap() uses in the decoders", capFlowRule(c, []*ssa.Function{hu, pu}), 1)
 }
